@@ -1,14 +1,16 @@
 """Shared truth reconstruction for properties about the sorting-based algorithms (C07, C08, C10)."""
-from .world import evse_levels
+from .world import evse_levels, constraints_at
 
 
 def station_index(sc):
     return {s["id"]: i for i, s in enumerate(sc["network"]["stations"])}
 
 
-def cons_of(sc):
+def cons_of(sc, t=None):
+    """(coefficient row, limit) per constraint; with t, the constraints in force during period t (after reconfigurations)."""
     ids = [s["id"] for s in sc["network"]["stations"]]
-    return [([float(c["coeffs"].get(s, 0)) for s in ids], float(c["limit"])) for c in sc["network"]["constraints"]]
+    cl = sc["network"]["constraints"] if t is None else constraints_at(sc, t)
+    return [([float(c["coeffs"].get(s, 0)) for s in ids], float(c["limit"])) for c in cl]
 
 
 def max_pilot(e):
